@@ -41,7 +41,8 @@ int main() {
         fs::remove_all(root);
         fs::create_directories(root);
         auto pathOf = [&](int64_t n) { return root + "/f" + std::to_string(n); };
-        std::unique_ptr<File> f;
+        File theFile;                 // one File object for the whole case: re-opened with open()
+        File *f = nullptr;            // &theFile while it is open
         int64_t curName = -1;
         int curMode = 0;
         bool sequential = true;
@@ -66,11 +67,11 @@ int main() {
                 bool existed = fs::exists(p), isDir = fs::is_directory(p);
                 std::string old = existed && !isDir ? slurp(p) : "";
                 try {
-                    auto nf = std::make_unique<File>(Path(p), static_cast<File::Mode>(l[2]));
-                    bool opened = nf->isOpen();
+                    theFile.open(Path(p), static_cast<File::Mode>(l[2]));
+                    bool opened = theFile.isOpen();
                     out.push_back(opened ? 0 : -1);
                     if (opened) {
-                        f = std::move(nf); curName = l[1]; curMode = (int) l[2]; sequential = true; written.clear();
+                        f = &theFile; curName = l[1]; curMode = (int) l[2]; sequential = true; written.clear();
                         before = (curMode == 5 || curMode == 6) ? old : "";
                     }
                     if (!existed && l[2] <= 2) oracle_fail("C17: opening a missing file for reading did not fail with NotFound");
@@ -84,7 +85,7 @@ int main() {
             }
             case 2: {
                 if (l.size() != 1 || !f) { ok = false; break; }
-                f->close(); f.reset(); out.push_back(0);
+                f->close(); f = nullptr; out.push_back(0);
                 if (curMode >= 3 && sequential && slurp(pathOf(curName)) != before + written)
                     oracle_fail("C17: after a sequential " + std::string(curMode >= 5 ? "append" : "write") +
                                 " session the file does not hold " + (curMode >= 5 ? "old + written" : "exactly the written") + " bytes");
@@ -134,7 +135,7 @@ int main() {
             }
             if (!ok) emit({PRE}); else emit(out);
         }
-        f.reset();
+        if (f) { f->close(); f = nullptr; }
         fs::remove_all(root);
     }, 60, 32);
 }
